@@ -8,7 +8,7 @@ SD=/verif/seeded/$ID
 mkdir -p "$SD"
 cp /tmp/seedout/$ID/patch.diff /tmp/seedout/$ID/notes.md "$SD"/ 2>/dev/null
 cp /tmp/seedout/$ID/seed_$L.rs "$SD"/
-/verif/tools/confirm_seed.sh "$ID" /tmp/wt/$ID "$SD" seed_$L
+/verif/tools/confirm_seed.sh "$ID" /tmp/wt/$ID "$SD" seed_$L "${SEED_EXTRA:-}"
 cat "$SD/confirm.txt"
 /verif/tools/seedtest.sh "$SD/patch.diff" "$@" > "$SD/run.txt" 2>&1
 cat "$SD/run.txt"
